@@ -90,11 +90,17 @@ func (fx *FnExec) doCall(st *State, instr ssa.Instruction, c *ssa.CallCommon) []
 		argTypes = append(argTypes, a.Type())
 		argVals = append(argVals, a)
 	}
-	// caller-side call-site clauses (the caller's locals are visible)
-	if fx.contract != nil {
-		for _, cs := range fx.contract.Callsites {
-			// "<callee>@N": only the N-th call site of that callee in this function (execution visits each
-			// call instruction once, in reverse post-order of the CFG, i.e. source order for structured code)
+	// caller-side call-site clauses (the caller's locals are visible). Inside a helper executed in place the
+	// clauses of the function it was inlined into apply, evaluated in that function's scope at the call of
+	// the helper (a clause that cannot be evaluated there - it names a local of a different shape - is
+	// skipped: the extraction of a helper must not turn into an alarm by itself)
+	cfx, cpos, inlinedCtx := fx, instr.Pos(), false
+	for cfx.contract == nil && cfx.inlineParent != nil {
+		cpos, cfx, inlinedCtx = cfx.inlineAt, cfx.inlineParent, true
+	}
+	if cfx.contract != nil {
+		for _, cs := range cfx.contract.Callsites {
+			// "<callee>@N": only the N-th call site of that callee in this function, in source order
 			calleeName, wantOrd := cs.Callee, 0
 			if at := strings.LastIndex(calleeName, "@"); at > 0 {
 				if n, err := strconv.Atoi(calleeName[at+1:]); err == nil {
@@ -104,31 +110,38 @@ func (fx *FnExec) doCall(st *State, instr ssa.Instruction, c *ssa.CallCommon) []
 			if !calleeMatches(key, calleeName) {
 				continue
 			}
-			if wantOrd > 0 {
-				if fx.siteOrdinal(instr, calleeName) != wantOrd {
-					continue
+			if wantOrd > 0 && (inlinedCtx || fx.siteOrdinal(instr, calleeName) != wantOrd) {
+				continue
+			}
+			func() {
+				if inlinedCtx {
+					defer func() {
+						if r := recover(); r != nil {
+							if _, isS := r.(SpecError); !isS {
+								panic(r)
+							}
+						}
+					}()
 				}
-				n := wantOrd
-				if n != wantOrd {
-					continue
+				env := cfx.specEnv(st, cfx.entry, nil, true)
+				env.pos = cpos
+				for i, n := range names {
+					if i < len(args) && n != "" && n != "_" {
+						env.vars["callee."+n] = SpecVal{T: args[i], Ty: argTypes[i]}
+					}
 				}
-			}
-			env := fx.specEnv(st, fx.entry, nil, true)
-			env.pos = instr.Pos()
-			for i, n := range names {
-				if i < len(args) && n != "" && n != "_" {
-					env.vars["callee."+n] = SpecVal{T: args[i], Ty: argTypes[i]}
+				for i := range args {
+					env.vars[fmt.Sprintf("arg%d", i)] = SpecVal{T: args[i], Ty: argTypes[i]}
 				}
-			}
-			for i := range args {
-				env.vars[fmt.Sprintf("arg%d", i)] = SpecVal{T: args[i], Ty: argTypes[i]}
-			}
-			ord := fx.ordinal("callsite." + cs.Callee + "." + cs.Clause.Label)
-			suffix := ""
-			if ord > 1 {
-				suffix = fmt.Sprintf("@%d", ord)
-			}
-			fx.AssertClause(st, env, fmt.Sprintf("callsite.%s.%s%s", lastSeg(cs.Callee), cs.Clause.Label, suffix), "callsite", cs.Clause)
+				ord := cfx.ordinal("callsite." + cs.Callee + "." + cs.Clause.Label)
+				suffix := ""
+				if ord > 1 {
+					suffix = fmt.Sprintf("@%d", ord)
+				}
+				saved := cfx.curInstr
+				cfx.AssertClause(st, env, fmt.Sprintf("callsite.%s.%s%s", lastSeg(cs.Callee), cs.Clause.Label, suffix), "callsite", cs.Clause)
+				cfx.curInstr = saved
+			}()
 		}
 	}
 	ct := fx.g.contracts[key]
@@ -210,7 +223,15 @@ func (fx *FnExec) doCall(st *State, instr ssa.Instruction, c *ssa.CallCommon) []
 		}
 		return results
 	}
-	// no contract: results unconstrained, frame from the inferred write set
+	// no contract: a small loop-free helper of this repository is executed in place (see inline.go) ...
+	if callee != nil && !c.IsInvoke() {
+		if _, isClosure := c.Value.(*ssa.MakeClosure); !isClosure {
+			if res, ok := fx.tryInline(st, callee, args, instr.Pos()); ok {
+				return res
+			}
+		}
+	}
+	// ... otherwise results are unconstrained and the frame is the inferred write set
 	var ms *ModSet
 	switch {
 	case callee != nil && len(callee.Blocks) > 0:
